@@ -105,6 +105,14 @@ let () =
            let pre = if pre = "-" then "" else pre in
            let tok = label_token (codes pre) (codes name) width in
            Printf.printf "%s\n" (text tok)
+         | "LFRUN" ->
+           (* LFRUN n (rel enabled f)* -> ft after each evaluation *)
+           let n = ni () in
+           let h = List.init n (fun _ -> let r = nn () in let e = nb () in let f = nf () in ((r, e), f)) in
+           let rec go s acc = function
+             | [] -> List.rev acc
+             | e :: r -> let s1 = lf_run s [e] in go s1 (hex s1.lf_ft :: acc) r in
+           Printf.printf "%s\n" (String.concat " " (go (lf0 fops) [] h))
          | "MULTICOL" ->
            (* MULTICOL nd (n lower width)* nvals v.. -> "B" / "D c,c | v" lines joined by " ; "  (one value per record) *)
            let nd = ni () in
